@@ -1466,8 +1466,10 @@ RCP<const Set> Complement::set_intersection(const RCP<const Set> &o) const
 
 RCP<const Set> Complement::set_complement(const RCP<const Set> &o) const
 {
-    auto newuniv = SymEngine::set_union({o, universe_});
-    return container_->set_complement(newuniv);
+    // o \ (U \ A) = (o \ U) u (o n A)
+    return SymEngine::set_union(
+        {universe_->set_complement(o),
+         SymEngine::set_intersection({o, container_})});
 }
 
 ConditionSet::ConditionSet(const RCP<const Basic> &sym,
